@@ -57,6 +57,9 @@ def jobs_c08(tier):
     for only in ["Blake", "Groestl", "Jh", "Skein"]:
         js.append(fam("std", "fast", only))
         js.append(fam("std", "checked", only, scale=0.5))
+    # the compile-time dispatch (no-std) builds have their own block-feeding wrappers
+    js.append(J("nostd-sse2", "fast", scale=0.15))
+    js.append(J("nostd-avx2", "fast", scale=0.15))
     return js
 
 
